@@ -1,7 +1,292 @@
-//! (stub - filled in by the corresponding check)
+//! spec -> impl replay of the voting engines (spec/voting/GenV.tla, GenA.tla) - property C17, and C02a.
+//!
+//! kind "vote": `{str: [{q, t, am, fd}], sc, maxd, minv, topn: [N -> {q: [[track, weight], ..]}], best: {q: [[winner, weight], ..]}}`
+//!   distances are integers (real value fd / sc, exact in f32; fd = -1: no distance).  The stream is fed in several
+//!   orders (every permutation for <= 5 entries, otherwise identity, reverse and seeded random shuffles) to the real
+//!   `TopNVoting` (once per N) and `BestFitVoting`; every order must give exactly the specification's answer
+//!   (tracks, order, weights within 1e-6).
+//! kind "asg": `{w: [[..]], thr, sc, opt: [[col or 0 per row], ..]}`: the gated pairs (w > 0) are fed to
+//!   `SortVoting::new(thr / sc, rows, cols)`; the outcome must have exactly one winner for every query that appears
+//!   (a track or the query itself), no track twice, and be a member of `opt` (the set of ALL optimal assignments).
+//! kind "asgv": as "asg" but with `val` = the optimum (DP) instead of `opt`: the outcome must be a valid gated
+//!   one-to-one assignment whose value (integers of the case) equals `val`.
+//! No property logic here: every expected value comes from TLC.
 use crate::common::*;
+use rand::seq::SliceRandom;
+use rand::SeedableRng;
+use serde_json::{json, Value};
+use similari::track::ObservationMetricOk;
+use similari::trackers::sort::voting::SortVoting;
+use similari::utils::bbox::Universal2DBox;
+use similari::voting::best::BestFitVoting;
+use similari::voting::topn::{TopNVoting, TopNVotingElt};
+use similari::voting::Voting;
+use std::collections::{BTreeMap, HashMap};
 
-pub fn main(_opts: &Opts) {
-    eprintln!("vh: engine not built yet");
-    std::process::exit(2);
+const QBASE: u64 = 100; // queries are 101.., tracks 1..
+
+fn permutations(n: usize) -> Vec<Vec<usize>> {
+    fn rec(cur: &mut Vec<usize>, used: &mut Vec<bool>, n: usize, out: &mut Vec<Vec<usize>>) {
+        if cur.len() == n {
+            out.push(cur.clone());
+            return;
+        }
+        for i in 0..n {
+            if !used[i] {
+                used[i] = true;
+                cur.push(i);
+                rec(cur, used, n, out);
+                cur.pop();
+                used[i] = false;
+            }
+        }
+    }
+    let mut out = vec![];
+    rec(&mut vec![], &mut vec![false; n], n, &mut out);
+    out
+}
+
+/// input orders: all permutations for n <= 5, else identity, reverse and `extra` seeded shuffles
+fn orders(n: usize, extra: usize, seed: u64) -> Vec<Vec<usize>> {
+    if n <= 5 {
+        return permutations(n);
+    }
+    let id: Vec<usize> = (0..n).collect();
+    let mut v = vec![id.clone(), id.iter().rev().cloned().collect()];
+    let mut rng = rand::rngs::StdRng::seed_from_u64(seed);
+    for _ in 0..extra {
+        let mut p = id.clone();
+        p.shuffle(&mut rng);
+        v.push(p);
+    }
+    v
+}
+
+/// expected `{q: [[x, w], ..]}` (or `[]` for the empty function) -> map
+fn exp_map(v: &Value) -> BTreeMap<u64, Vec<(u64, i64)>> {
+    let mut m = BTreeMap::new();
+    if let Value::Object(o) = v {
+        for (k, l) in o {
+            let lst = l.as_array().unwrap().iter().map(|p| (ji(&p[0]) as u64, ji(&p[1]))).collect();
+            m.insert(k.parse::<u64>().unwrap(), lst);
+        }
+    }
+    m
+}
+
+/// compares a winners map with the expectation; missing key == empty list
+fn cmp_lists(exp: &BTreeMap<u64, Vec<(u64, i64)>>, got: &HashMap<u64, Vec<TopNVotingElt>>, sc: f64) -> Option<(String, Value)> {
+    let show = |g: &HashMap<u64, Vec<TopNVotingElt>>| {
+        let mut b = BTreeMap::new();
+        for (k, l) in g {
+            b.insert(k.to_string(), l.iter().map(|e| json!([e.winner_track, e.weight * sc])).collect::<Vec<_>>());
+        }
+        json!(b)
+    };
+    for (k, l) in got {
+        if !exp.contains_key(k) && !l.is_empty() {
+            return Some(("query not in the stream".into(), json!({"impl": show(got)})));
+        }
+        if l.iter().any(|e| e.query_track != *k) {
+            return Some(("element under a foreign key".into(), json!({"impl": show(got)})));
+        }
+    }
+    for (q, el) in exp {
+        let empty = vec![];
+        let gl = got.get(q).unwrap_or(&empty);
+        if gl.len() != el.len() {
+            let s = if gl.len() > el.len() { "more winners than the specification" } else { "fewer winners than the specification" };
+            return Some((s.into(), json!({"q": q, "spec": el, "impl": show(got)})));
+        }
+        for (g, e) in gl.iter().zip(el.iter()) {
+            if g.winner_track != e.0 {
+                let mut a: Vec<u64> = gl.iter().map(|x| x.winner_track).collect();
+                let mut b: Vec<u64> = el.iter().map(|x| x.0).collect();
+                a.sort();
+                b.sort();
+                let s = if a == b { "order" } else { "different winners" };
+                return Some((s.into(), json!({"q": q, "spec": el, "impl": show(got)})));
+            }
+            if (g.weight * sc - e.1 as f64).abs() > 1e-6 * sc {
+                return Some(("weight".into(), json!({"q": q, "spec": el, "impl": show(got)})));
+            }
+        }
+    }
+    None
+}
+
+fn vote_case(idx: usize, c: &Value, rep: &mut Report, extra: usize, seed: u64, perturb: f32) {
+    let sc = jint(c, "sc") as f32;
+    let ents: Vec<(u64, u64, Option<f32>)> = jarr(c, "str")
+        .iter()
+        .map(|e| {
+            let fd = jint(e, "fd");
+            (jint(e, "q") as u64, jint(e, "t") as u64, if fd < 0 { None } else { Some(fd as f32 / sc) })
+        })
+        .collect();
+    let maxd = jint(c, "maxd") as f32 / sc * perturb;
+    let minv = jint(c, "minv") as usize;
+    let topn: Vec<BTreeMap<u64, Vec<(u64, i64)>>> = jarr(c, "topn").iter().map(exp_map).collect();
+    let best = exp_map(jget(c, "best"));
+    if jint(c, "contest") == 1 || jint(c, "cut") == 1 {
+        rep.nontrivial += 1;
+    }
+    rep.count("vote_cases", 1);
+    if jint(c, "contest") == 1 {
+        rep.count("contested_track", 1);
+    }
+    if jint(c, "cut") == 1 {
+        rep.count("cut_at_N", 1);
+    }
+    let ords = orders(ents.len(), extra, seed ^ (idx as u64).wrapping_mul(0x9E37_79B9_7F4A_7C15));
+    for ord in &ords {
+        rep.steps += 1;
+        let stream = || ord.iter().map(|&i| ObservationMetricOk::<()>::new(ents[i].0, ents[i].1, None, ents[i].2)).collect::<Vec<_>>();
+        for (ni, exp) in topn.iter().enumerate() {
+            let n = ni + 1;
+            let r = std::panic::catch_unwind(std::panic::AssertUnwindSafe(|| TopNVoting::<()>::new(n, maxd, minv).winners(stream())));
+            match r {
+                Err(_) => {
+                    rep.mismatch("topn:panic", idx, c, json!({"order": ord, "n": n}));
+                    return;
+                }
+                Ok(got) => {
+                    if let Some((s, d)) = cmp_lists(exp, &got, sc as f64) {
+                        rep.mismatch(&format!("topn:{}", s), idx, c, json!({"order": ord, "n": n, "d": d}));
+                        return;
+                    }
+                }
+            }
+        }
+        let r = std::panic::catch_unwind(std::panic::AssertUnwindSafe(|| BestFitVoting::<()>::new(maxd, minv).winners(stream())));
+        match r {
+            Err(_) => {
+                rep.mismatch("bestfit:panic", idx, c, json!({"order": ord}));
+                return;
+            }
+            Ok(got) => {
+                if let Some((s, d)) = cmp_lists(&best, &got, sc as f64) {
+                    rep.mismatch(&format!("bestfit:{}", s), idx, c, json!({"order": ord, "d": d}));
+                    return;
+                }
+            }
+        }
+    }
+}
+
+fn asg_case(idx: usize, c: &Value, rep: &mut Report, extra: usize, seed: u64, perturb: f32) {
+    let sc = jint(c, "sc") as f32;
+    let thr_i = jint(c, "thr");
+    let w: Vec<Vec<i64>> = jarr(c, "w").iter().map(|r| r.as_array().unwrap().iter().map(ji).collect()).collect();
+    let nr = w.len();
+    let nc = w.first().map(|r| r.len()).unwrap_or(0);
+    let by_value = jstr(c, "kind") == "asgv";
+    let opt: Vec<Vec<i64>> = if by_value {
+        vec![]
+    } else {
+        jarr(c, "opt").iter().map(|a| a.as_array().unwrap().iter().map(ji).collect()).collect()
+    };
+    if jint(c, "gs") == 1 {
+        rep.nontrivial += 1;
+    }
+    rep.count(if by_value { "asgv_cases" } else { "asg_cases" }, 1);
+    if opt.len() > 1 {
+        rep.count("several_optima", 1);
+    }
+    let mut ents: Vec<(u64, u64, f32)> = vec![];
+    for r in 0..nr {
+        for x in 0..nc {
+            if w[r][x] > 0 {
+                ents.push((QBASE + 1 + r as u64, 1 + x as u64, w[r][x] as f32 / sc));
+            }
+        }
+    }
+    let appears: Vec<bool> = (0..nr).map(|r| w[r].iter().any(|&v| v > 0)).collect();
+    let ords = orders(ents.len(), extra, seed ^ (idx as u64).wrapping_mul(0x9E37_79B9_7F4A_7C15));
+    for ord in &ords {
+        rep.steps += 1;
+        let stream: Vec<ObservationMetricOk<Universal2DBox>> =
+            ord.iter().map(|&i| ObservationMetricOk::new(ents[i].0, ents[i].1, Some(ents[i].2), None)).collect();
+        let r = std::panic::catch_unwind(std::panic::AssertUnwindSafe(|| {
+            SortVoting::new(thr_i as f32 / sc * perturb, nr, nc).winners(stream)
+        }));
+        let got = match r {
+            Err(_) => {
+                rep.mismatch("hungarian:panic", idx, c, json!({"order": ord}));
+                return;
+            }
+            Ok(g) => g,
+        };
+        let show = json!(got.iter().map(|(k, v)| (k.to_string(), json!(v))).collect::<BTreeMap<_, _>>());
+        // outcome as row -> column (0 = the query itself)
+        let mut a = vec![0i64; nr];
+        for (k, v) in &got {
+            let r = k.wrapping_sub(QBASE + 1) as usize;
+            if r >= nr || !appears[r] {
+                rep.mismatch("hungarian:winner for a query that is not in the stream", idx, c, json!({"order": ord, "impl": show}));
+                return;
+            }
+            if v.len() != 1 {
+                rep.mismatch("hungarian:not exactly one winner", idx, c, json!({"order": ord, "impl": show}));
+                return;
+            }
+            if v[0] == *k {
+                a[r] = 0;
+            } else if v[0] >= 1 && v[0] <= nc as u64 {
+                a[r] = v[0] as i64;
+            } else {
+                rep.mismatch("hungarian:winner is neither a track nor the query itself", idx, c, json!({"order": ord, "impl": show}));
+                return;
+            }
+        }
+        if (0..nr).any(|r| appears[r] && !got.contains_key(&(QBASE + 1 + r as u64))) {
+            rep.mismatch("hungarian:no winner for a query of the stream", idx, c, json!({"order": ord, "impl": show}));
+            return;
+        }
+        let mut seen = vec![false; nc + 1];
+        for &x in &a {
+            if x > 0 {
+                if seen[x as usize] {
+                    rep.mismatch("hungarian:track awarded twice", idx, c, json!({"order": ord, "impl": show}));
+                    return;
+                }
+                seen[x as usize] = true;
+            }
+        }
+        if by_value {
+            if (0..nr).any(|r| a[r] > 0 && w[r][a[r] as usize - 1] == 0) {
+                rep.mismatch("hungarian:pair that is not in the stream", idx, c, json!({"order": ord, "impl": show}));
+                return;
+            }
+            let val: i64 = (0..nr).map(|r| if a[r] == 0 { thr_i } else { w[r][a[r] as usize - 1] }).sum();
+            if val != jint(c, "val") {
+                rep.mismatch("hungarian:not a maximum-weight assignment", idx, c, json!({"order": ord, "impl": a, "value": val}));
+                return;
+            }
+        } else if !opt.iter().any(|o| *o == a) {
+            rep.mismatch("hungarian:not a maximum-weight assignment", idx, c, json!({"order": ord, "impl": a}));
+            return;
+        }
+    }
+}
+
+pub fn main(opts: &Opts) {
+    let mut rep = Report::new();
+    let seed = opts.u64("seed", 1);
+    let extra = opts.usize("shuffles", 6);
+    // liveness demonstration only: scales the distance / weight threshold handed to the implementation
+    let perturb = opts.f64("perturb-thr", 1.0) as f32;
+    for_each_case(opts, |idx, c| {
+        rep.cases += 1;
+        rep.sample(&c);
+        match jstr(&c, "kind") {
+            "vote" => vote_case(idx, &c, &mut rep, extra, seed, perturb),
+            "asg" | "asgv" => asg_case(idx, &c, &mut rep, extra, seed, perturb),
+            o => {
+                eprintln!("vh: unknown case kind {}", o);
+                std::process::exit(2);
+            }
+        }
+    });
+    rep.finish();
 }
